@@ -105,6 +105,31 @@ def _aggregate(fn, verdicts):
     raise AnalysisError("C21.cmp: aggregation falls off the end")
 
 
+def _piece_loops(fn):
+    """The iteration over pairs of pieces of a comparison method: nested `for (lb, ub) in A: for (lb, ub) in B:` or the
+    equivalent single loop over itertools.product(A, B).  Returns (names of piece 1, names of piece 2, body,
+    iterable 1, iterable 2) or None."""
+    for st in fn.body:
+        if not isinstance(st, ast.For):
+            continue
+        if isinstance(st.target, ast.Tuple) and len(st.target.elts) == 2 and all(isinstance(e, ast.Name) for e in st.target.elts):
+            inner = st.body[0] if st.body and isinstance(st.body[0], ast.For) else None
+            if inner is not None and isinstance(inner.target, ast.Tuple) and len(inner.target.elts) == 2 and all(isinstance(e, ast.Name) for e in inner.target.elts) and len(st.body) == 1:
+                return [e.id for e in st.target.elts], [e.id for e in inner.target.elts], inner.body, st.iter, inner.iter
+        if (
+            isinstance(st.target, ast.Tuple)
+            and len(st.target.elts) == 2
+            and all(isinstance(e, ast.Tuple) and len(e.elts) == 2 and all(isinstance(x, ast.Name) for x in e.elts) for e in st.target.elts)
+            and isinstance(st.iter, ast.Call)
+            and (dotted(st.iter.func) or "").split(".")[-1] == "product"
+            and len(st.iter.args) == 2
+            and not st.iter.keywords
+        ):
+            a, b = st.target.elts
+            return [e.id for e in a.elts], [e.id for e in b.elts], st.body, st.iter.args[0], st.iter.args[1]
+    return None
+
+
 @rule(
     "C21.cmp",
     props=("C21", "C24"),
@@ -124,12 +149,9 @@ def c21_cmp(R):
     for name, rel in CMP_REL.items():
         fn = ms.get(name)
         R.need(fn is not None, f"StridedInterval.{name} missing")
-        loops = [st for st in fn.body if isinstance(st, ast.For)]
-        R.need(len(loops) == 1 and isinstance(loops[0].body[0], ast.For), f"{name}: double loop over pieces not found")
-        outer, inner = loops[0], loops[0].body[0]
-        n1 = [e.id for e in outer.target.elts]
-        n2 = [e.id for e in inner.target.elts]
-        R.need(len(n1) == 2 and len(n2) == 2, f"{name}: loops do not unpack (lb, ub) pairs")
+        pl = _piece_loops(fn)
+        R.need(pl is not None, f"{name}: iteration over pairs of pieces not found")
+        n1, n2, pair_body, _, _ = pl
         bad = None
         count = 0
         for lb1, ub1, lb2, ub2 in itertools.product(range(4), repeat=4):
@@ -137,7 +159,7 @@ def c21_cmp(R):
                 continue
             count += 1
             env = {n1[0]: lb1, n1[1]: ub1, n2[0]: lb2, n2[1]: ub2}
-            v = _verdict_of(inner.body, env)
+            v = _verdict_of(pair_body, env)
             if v is None:
                 bad = (env, "no verdict appended for this ordering")
                 break
@@ -200,10 +222,10 @@ def c21_bounds(R):
         for st in fn.body:
             if isinstance(st, ast.Assign) and isinstance(st.targets[0], ast.Name) and isinstance(st.value, ast.Call):
                 src[st.targets[0].id] = ast.unparse(st.value)
-        outer = [st for st in fn.body if isinstance(st, ast.For)][0]
-        inner = outer.body[0]
-        a = src.get(ast.unparse(outer.iter), ast.unparse(outer.iter))
-        b = src.get(ast.unparse(inner.iter), ast.unparse(inner.iter))
+        pl = _piece_loops(fn)
+        R.need(pl is not None, f"{name}: iteration over pairs of pieces not found")
+        a = src.get(ast.unparse(pl[3]), ast.unparse(pl[3]))
+        b = src.get(ast.unparse(pl[4]), ast.unparse(pl[4]))
         R.check(
             a == f"self.{want}()" and b == f"{o}.{want}()",
             m,
@@ -1624,7 +1646,10 @@ def c21_wrapdiff(R):
     tree = R.tree
     m = tree.mod(SI)
     n = 0
-    for q, fn in m.functions.items():
+    for q, fn0 in m.functions.items():
+        if not any(_is_bound_diff(x) for x in ast.walk(fn0)):
+            continue
+        fn = util.inline_aliases(fn0, _is_bound_diff)  # `span = ub - lb; if 0 <= span <= mask` reads the same
         for c in (x for x in walk_no_nested(fn) if isinstance(x, ast.Compare)):
             sides = [c.left, *c.comparators]
             for i, s in enumerate(sides):
